@@ -70,6 +70,8 @@ def kinds_mismatch(lcols, rcols):
 def key_args(side, kidx, variant):
     """left_on / right_on in three forms: names, the table's own columns, vectors not stored in the table."""
     cols = [side.table.cols()[c] for c in kidx]
+    if not kidx:
+        return ([] if variant != 1 else ()), cols          # no partition column at all: one group / the grand total
     if variant == 0:
         names = [side.names[c] for c in kidx]
         return (names[0] if len(names) == 1 else names), cols
@@ -88,6 +90,9 @@ def run_join(L, R, lk_idx, rk_idx, kind, expect, variant):
     after = (table_view(L.table), table_view(R.table))
     pre = st == "err" and err == "SerifTypeError" and kinds_mismatch(lcols, rcols)
     return st, res, err, views_equal(before, after), pre
+
+
+BOGUS = ["bogus", "", None, 0, False, (), "MANY_TO_ONE", " many_to_one", "many-to-one", 1, "one_to_one ", ["many_to_one"], b"many_to_one", "one_to_many_", True]
 
 
 def replay_join(cases_path, out_path):
@@ -114,9 +119,13 @@ def replay_join(cases_path, out_path):
         rnames = [("k%d" if same_names else "r%d") % (i + 1) for i in range(nk)] + ["rid"]
         L = Side(lrows, nk + 2, [tag] * nk + ["int", "str"], [pal] * nk + [0, 0], lnames)
         R = Side(rrows, nk + 1, [tag] * nk + ["int"], [pal] * nk + [0], rnames)
-        st, res, err, unchanged, pre = run_join(L, R, list(range(nk)), list(range(nk)), c["kind"], c["expect"], variant)
+        expect = c["expect"]
+        if expect == "bogus":
+            # "any other expect value is always rejected": every spelling that is not one of the four words
+            expect = BOGUS[(n // 3) % len(BOGUS)]
+        st, res, err, unchanged, pre = run_join(L, R, list(range(nk)), list(range(nk)), c["kind"], expect, variant)
         executed += 1
-        info = {"tag": tag, "palette": pal, "key_form": ["names", "own columns", "external vectors"][variant]}
+        info = {"tag": tag, "palette": pal, "key_form": ["names", "own columns", "external vectors"][variant], "expect_value": repr(expect)}
         if pre:
             skipped["precondition: key dtype kinds differ"] = skipped.get("precondition: key dtype kinds differ", 0) + 1
             continue
